@@ -74,15 +74,15 @@ class Run:
         new = []
         for key in sorted(self.viol):
             v = self.viol[key]
-            if key in kkeys:
-                print("KNOWN-FINDING: property=%s %s [key=%s, %d case(s)]" % (self.pid, kkeys[key]["what"], key, v["n"]))
-                continue
             h = hashlib.sha1((self.pid + key).encode()).hexdigest()[:10]
             path = os.path.join(OUT, "replays", "%s-%s.json" % (self.pid, h))
             os.makedirs(os.path.dirname(path), exist_ok=True)
             with open(path, "w") as f:
                 json.dump({"property": self.pid, "key": key, "what": v["what"], "spec": v["spec"],
                            "detail": v["detail"], "cases_with_this_key": v["n"], "tier": self.tier}, f, indent=1, default=str)
+            if key in kkeys:
+                print("KNOWN-FINDING: property=%s %s [key=%s, %d case(s), replay=%s]" % (self.pid, kkeys[key]["what"], key, v["n"], path))
+                continue
             print("VIOLATION property=%s replay=%s" % (self.pid, path))
             print("  key=%s n=%d :: %s" % (key, v["n"], v["what"]))
             new.append(key)
